@@ -244,9 +244,7 @@ def gen_cases(ctx):
     T = ctx.thorough
     cases = []
     # behaviour probes: which shape of the three repairable places does the tree have
-    cases.append({"kind": "filter", "d": {"a/b": 1}, "filters": ["/*"], "src": "probe-esc"})
-    cases.append({"kind": "filter", "d": {"a": "xy"}, "filters": ["/a/*"], "src": "probe-strseq"})
-    cases.append({"kind": "patch", "old": {"d": ["x", "y", "z"]}, "new": {"d": ["z", "x"]}, "src": "probe-sorted"})
+    cases += [dict(p) for p in PROBES]
     cases += list(exhaustive_frag(T))
     n_exh = len(cases) - 3
     n_frag, n_filter, n_patch, n_apply = (9000, 4000, 8000, 3000) if T else (900, 400, 900, 300)
@@ -615,14 +613,22 @@ def run(ctx):
     ]
 
 
+PROBES = [
+    {"kind": "filter", "d": {"a/b": 1}, "filters": ["/*"], "src": "probe-esc"},
+    {"kind": "filter", "d": {"a": "xy"}, "filters": ["/a/*"], "src": "probe-strseq"},
+    {"kind": "patch", "old": {"d": ["x", "y", "z"]}, "new": {"d": ["z", "x"]}, "src": "probe-sorted"},
+]
+
+
 def replay(ctx, doc):
-    c = doc["replay"]["case"]
-    out = core.run_impl("c13_runner.py", [c])[0]
-    v = doc["replay"].get("shape") or {"v_esc": False, "v_strseq": True, "v_sorted": True}
-    c = dict(c, src="replay")
-    viol, disagree = evaluate(ctx, [c], [out], v, tag="-replay")
-    print("impl:", json.dumps(out))
-    print("holds:", not viol, "agree(model shape %s):" % v, not disagree)
+    c = dict(doc["replay"]["case"], src="replay")
+    cases = [dict(p) for p in PROBES] + [c]
+    outs = core.run_impl("c13_runner.py", [runner_payload(x) for x in cases])
+    v = variant_of(cases, outs)
+    viol, disagree = evaluate(ctx, [c], [outs[3]], v, tag="_replay")
+    print("impl:", json.dumps(outs[3]))
+    print("shape of the tree:", v)
+    print("holds:", not viol, " model agrees:", not disagree)
     for _, sig, what in viol:
         print(sig, "--", what)
     return 1 if viol else 0
